@@ -616,6 +616,39 @@ func c15Generate(ctx *Ctx, g *graph, label string) error {
 		return nil
 	}
 	doc := g.Build()
+	if len(g.Nodes)%4 == 3 {
+		// a document without any path (a library of components): nothing is referred to, pruning removes everything
+		docNP := g.Build()
+		docNP["paths"] = J{}
+		specNP, err1 := loadDoc(docNP)
+		specNP0, err2 := loadDoc(docNP)
+		if err1 == nil && err2 == nil {
+			// what pruning (checked on its own against the independent scanner) leaves of the document: orphan cycles only
+			codegen.VerifPrune(specNP0)
+			wantNP := []string{}
+			if a, err := abstractDoc(specNP0); err == nil {
+				wantNP = a.names()
+			}
+			var o codegen.Configuration
+			o.PackageName = "api"
+			o.Generate.Models = true
+			o.Generate.EmbeddedSpec = true
+			ctx.Res.Count("generate-level:document-without-paths")
+			if src, err := generate(specNP, o); err == nil {
+				replay := J{"doc": docNP}
+				if f, _, perr := parseGo(src); perr == nil {
+					if raw, derr := decodeEmbedded(f); derr == nil {
+						if emb, lerr := openapi3.NewLoader().LoadFromData(raw); lerr == nil {
+							if ae, aerr := abstractDoc(emb); aerr == nil && Canon(orEmpty(ae.names())) != Canon(orEmpty(wantNP)) {
+								extra, missing := diffStrings(ae.names(), wantNP)
+								ctx.Res.Violate("generate-level:embedded-components:no-paths", fmt.Sprintf("a document without paths: the components of the embedded specification differ from the pruned document: extra %v, missing %v", extra, missing), replay)
+							}
+						}
+					}
+				}
+			}
+		}
+	}
 	spec0, err := loadDoc(doc)
 	if err != nil {
 		return nil
@@ -822,8 +855,18 @@ func runC15(ctx *Ctx) error {
 		r := ctx.Rng.Fork()
 		nn := 2 + r.Intn(8)
 		g := &graph{}
+		perKind := map[string]int{}
 		for j := 0; j < nn; j++ {
-			g.Nodes = append(g.Nodes, gnode{pruneKinds[r.Intn(len(pruneKinds))], name(j)})
+			kind := pruneKinds[r.Intn(len(pruneKinds))]
+			nm := name(j)
+			if i%3 != 0 {
+				// component sections are separate name spaces: the same key in several sections (the graphs that also go
+				// through the type generator keep distinct names, Go types of two sections would collide)
+				nm = name(perKind[kind])
+				perKind[kind]++
+				ctx.Res.Count("graph:keys-shared-between-sections")
+			}
+			g.Nodes = append(g.Nodes, gnode{kind, nm})
 		}
 		aliasUsed := map[int]bool{}
 		ne := r.Intn(2 * nn)
